@@ -45,6 +45,22 @@ func digestOf(v interface{}, err error) string {
 
 func execGrowth(vec J, out *Writer) {
 	switch vec["k"].(string) {
+	case "colonblank":
+		// the same document with and without blanks between field names and their colons
+		read := func(b string) (bool, []interface{}) {
+			rd, err := control.NewParagraphReader(strings.NewReader(b), nil)
+			if err != nil {
+				return false, []interface{}{}
+			}
+			ps, err := rd.All()
+			if err != nil {
+				return false, []interface{}{}
+			}
+			return true, parasToJ(ps)
+		}
+		okB, psB := read(S(vec["doc"]))
+		okP, psP := read(S(vec["plain"]))
+		out.Put(J{"ev": "colonblank", "in": vec, "ok_blank": okB, "paras_blank": psB, "ok_plain": okP, "paras_plain": psP})
 	case "srcfault":
 		// a source that fails once with a transient error after `at` bytes and then goes on: is the error reported?
 		doc := []byte(S(vec["doc"]))
